@@ -408,3 +408,15 @@ Proof.
     destruct (dget (dist_matrix g) v q); [discriminate | discriminate Hr].
   - destruct Hp as [Hp _]. rewrite Hp in HvL. destruct HvL.
 Qed.
+
+(** ---- the boolean legality test of observed pivots ---- *)
+Theorem legal_pivots_symb_spec : S_legal_pivots_symb_spec.
+Proof.
+  intros g piv. unfold legal_pivots_symb. rewrite forallb_forall. split.
+  - intros H v Hv. specialize (H v (proj2 (in_seq _ _ _) (conj (Nat.le_0_l _) Hv))).
+    apply andb_true_iff in H. destruct H as [H1 H2]. apply Nat.ltb_lt in H1. split; [exact H1|].
+    unfold reaches in H2. destruct (dget (dist_matrix g) (nth v piv 0) v); [discriminate | discriminate H2].
+  - intros H v Hv. apply in_seq in Hv. destruct (H v (proj2 Hv)) as [H1 H2].
+    apply andb_true_iff. split; [apply Nat.ltb_lt; exact H1|].
+    unfold reaches. destruct (dget (dist_matrix g) (nth v piv 0) v); [reflexivity | contradiction H2; reflexivity].
+Qed.
